@@ -432,7 +432,17 @@ pub fn gen_case(t: &mut Tape, p: &Profile) -> RCase {
             let steps: Vec<gherkin::Step> = (0..ns)
                 .map(|i| {
                     let c = class(t);
-                    mkstep_kw(c, format!("{name}.{i}"), sl + 1 + i, t.pick(3))
+                    let ty = t.pick(3);
+                    // An undefined `Given` / `When` step may carry the very text of a sibling
+                    // scenario's `Then` step (defined for `Then` only): undefined under one keyword,
+                    // defined under another - whichever of the two is looked up first.
+                    if c == "none" && ty % 3 != 2 && t.chance(1, 2) {
+                        if let Some((base, idx)) = name.rsplit_once(".S").and_then(|(b, n)| n.parse::<usize>().ok().map(|n| (b, n))) {
+                            let other = if idx > 0 && t.chance(1, 2) { idx - 1 } else { idx + 1 };
+                            return mkstep(format!("thn {base}.S{other}.{}", t.pick(3)), sl + 1 + i, ty);
+                        }
+                    }
+                    mkstep_kw(c, format!("{name}.{i}"), sl + 1 + i, ty)
                 })
                 .collect();
             for s in &steps {
@@ -678,6 +688,8 @@ pub fn gen_case(t: &mut Tape, p: &Profile) -> RCase {
 fn step_info(bg: bool, s: &gherkin::Step) -> StepInfo {
     let class = match s.value.split(' ').next() {
         Some("amb" | "dup") => "amb",
+        // (`thn` texts are defined for the `Then` keyword only)
+        Some("thn") if s.ty != gherkin::StepType::Then => "none",
         Some("thn") => "ok",
         Some("none") => "none",
         _ => "ok",
